@@ -502,6 +502,15 @@ mut('C19-power-real-minus-imag', 'C19', SX, "return np.mean(X.real ** 2 + X.imag
 mut('C19-set-snr-divides-noise', 'C19', SX, "        return X, N * factor", "        return X, N / factor", expect='apply', props=['C19'])
 mut('C19-candidates-last-axis', 'C19', SX, "    for p in range(all_target_selections.shape[0]):", "    for p in range(all_target_selections.shape[-1]):", expect='all-candidates', props=['C19'])
 mut('C08-self-call-arguments-crossed', 'C08', D + 'vmfcacgmm.py', "affiliation, quadratic_form = self._predict(observation, embedding)", "affiliation, quadratic_form = self._predict(embedding, observation)", expect='R-ARGNAME', props=['C08'])
+# ---- second pass over the survey
+mut('C08-aligner-guard-flipped', 'C08', D + 'cbmm.py', "                if inline_permutation_aligner is not None:", "                if inline_permutation_aligner is None:", expect='aligner-guard', props=['C08'])
+mut('C08-none-quadratic-form-transposed', 'C08', D + 'mixture_model_utils.py', "    if quadratic_form is not None:\n        quadratic_form = np.transpose", "    if quadratic_form is None:\n        quadratic_form = np.transpose", expect='R-NONE', props=['C08'])
+mut('C06-bingham-dimension-from-left', 'C06', D + 'complex_bingham.py', "        D = deltas.shape[-1]", "        D = deltas.shape[0]", expect='shape-from-left', props=['C06'])
+mut('C10-condition-loading-divided-by-trace', 'C10', BF, "scale = gamma * np.trace(x, axis1=-2, axis2=-1) / x.shape[-1]", "scale = gamma / np.trace(x, axis1=-2, axis2=-1) / x.shape[-1]", expect='condition_covariance', props=['C10'])
+mut('C10-condition-loading-times-dimension', 'C10', BF, "scale = gamma * np.trace(x, axis1=-2, axis2=-1) / x.shape[-1]", "scale = gamma * np.trace(x, axis1=-2, axis2=-1) * x.shape[-1]", expect='condition_covariance', props=['C10'])
+neu('N9-condition-covariance-rearranged', ALLP, [(BF, "    return (x + scaled_eye) / (1 + gamma)", "    return (scaled_eye + x) * (1 / (gamma + 1))", False)])
+mut('C13-atf-target-noise-crossed-positionally', 'C13', 'pb_bss/extraction/beamformer_wrapper.py', "        return _get_gev_atf_vector(\n            target_psd_matrix,\n            noise_psd_matrix,",
+    "        return _get_gev_atf_vector(\n            noise_psd_matrix,\n            target_psd_matrix,", expect='role', props=['C13'])
 # ---- whole refactorings written by independent sub-agents (14-20 behaviour-preserving edits each, verified bit-identical on
 #      600-900 inputs per patch): every check must stay silent on each of them
 for r, what in (('R1', 'mixture_model_utils / cacgmm / cACG'), ('R2', 'cwmm / cbmm / Watson / Bingham / distribution.utils'), ('R3', 'gmm / gaussian / vMF / gcacgmm / vmfcacgmm'),
